@@ -275,6 +275,11 @@ func (bs *bsess) onPacket(p refmqtt.Pkt) {
 			rc = b.plan.ConnackRCs[bs.nConnect]
 		}
 		bs.nConnect++
+		for _, rc2 := range b.plan.RefuseCIDs {
+			if rc2 == p.ClientID {
+				rc = 2
+			}
+		}
 		if silent {
 			return
 		}
